@@ -20,9 +20,9 @@ PID = "C18"
 
 def cfg_space(tier):
     if tier == "quick":
-        vals, L, pats, pers, tols = "{0, 1, 2}", 4, "1..2", "{<<1,1>>, <<1,2>>, <<2,1>>}", "{<<0,1>>, <<1,2>>, <<3,2>>, <<1,0>>}"
+        vals, L, pats, pers, tols = "{-1, 0, 2}", 4, "1..2", "{<<1,1>>, <<1,2>>, <<2,1>>}", "{<<0,1>>, <<1,2>>, <<3,2>>, <<1,0>>}"
     else:
-        vals, L, pats, pers, tols = "{0, 1, 2, 4}", 6, "1..5", "{<<1,1>>, <<1,2>>, <<2,1>>, <<2,2>>, <<3,1>>, <<1,3>>}", "{<<0,1>>, <<1,2>>, <<1,1>>, <<3,1>>, <<1,0>>}"
+        vals, L, pats, pers, tols = "{-2, -1, 0, 1, 4}", 5, "1..4", "{<<1,1>>, <<1,2>>, <<2,1>>, <<2,2>>, <<3,1>>, <<1,3>>}", "{<<0,1>>, <<1,2>>, <<1,1>>, <<3,1>>, <<1,0>>}"
     base = '''[type |-> "positive", startEp |-> 1, epochs |-> %d, N |-> 1, posB |-> 1, negB |-> 0,
        data |-> <<1>>, bases |-> <<>>, sched |-> FALSE, entryStop |-> FALSE, again |-> "no", perms |-> "id",
        cbs |-> CBS, vals |-> <<0>> \\o v, vars |-> <<0>> \\o VARS]''' % L
@@ -106,6 +106,7 @@ def run(tier, seed):
         for d in cfg["cbs"]:
             if d["t"] == "eval":
                 d["np"] = (n % 2 == 1)
+                d["vkind"] = ("float", "np", "tensor0d", "ndarray0d")[n % 4]      # what the user's metric returns
             if d["t"] == "early" and d["crit"] == "variance":
                 d["deprecated"] = (n % 3 == 0)
         return dict(time_flag=False, k=0)
@@ -124,10 +125,12 @@ def run(tier, seed):
         L = rng.randint(3, 12)
         crit = rng.choice(["relative", "absolute", "variance"])
         kind = "obs" if crit == "variance" or rng.random() < 0.3 else "metric"
-        vals = [0] + [rng.choice([0, 1, 2, 3, 5, 9]) if rng.random() < 0.7 else 4 for _ in range(L)]
+        vals = [0] + [rng.choice([-9, -3, -1, 0, 1, 2, 3, 5, 9]) if rng.random() < 0.7 else 4 for _ in range(L)]
         if rng.random() < 0.3:
-            vals = [0] + [rng.choice([3, 3, 3, 4]) for _ in range(L)]          # nearly constant
-        ev = {"t": "eval", "period": rng.randint(1, 3), "kind": kind, "np": rng.random() < 0.5}
+            c0 = rng.choice([3, -3])
+            vals = [0] + [rng.choice([c0, c0, c0, c0 + 1]) for _ in range(L)]          # nearly constant, either sign
+        ev = {"t": "eval", "period": rng.randint(1, 3), "kind": kind, "np": rng.random() < 0.5,
+              "vkind": rng.choice(["float", "np", "tensor0d", "ndarray0d"])}
         tolN, tolD = rng.choice([(0, 1), (1, 4), (1, 2), (1, 1), (2, 1), (7, 2), (1, 0)])
         st = {"t": "early", "period": rng.randint(1, 3), "patience": rng.randint(1, 5), "tolN": tolN, "tolD": tolD,
               "crit": crit, "ev": 2}
